@@ -3,8 +3,9 @@
     UserDefinedTransformer::transform, [match_datum]/[match_stream] the backtracking matcher,
     [substitute] template substitution). [rule_matches lits d r] runs the matcher of rule [r]
     on the use [d] with a fresh table; [instantiate r d s] fills the template of [r] from [s]. *)
-From Coq Require Import List.
-From RV Require Import Model.Common Model.Datum Model.Macro Proofs.MacroProofs.
+From Coq Require Import ZArith List.
+From RV Require Import Model.Common Model.Datum Model.Macro Proofs.MacroProofs Proofs.MacroNoPanic Proofs.MacroSpec
+  Proofs.TemplateSpec Proofs.ExpansionSpec.
 Import ListNotations.
 
 (** rule selection: textual order, the first matching rule decides, with its own bindings only *)
@@ -52,3 +53,65 @@ Theorem C04_template_repeats_per_item : forall x lx l s d0 vec,
   subst_get s x = Some (d0, vec) ->
   substitute (length vec + 5) (TList [(TId x lx, true)] l) s = Ok [dlist (d0 :: vec)].
 Proof. exact substitute_variable_ellipsis. Qed.
+
+(** ** the matcher against a structural specification (Proofs/MacroSpec.v), for the supported class [wfp]:
+    proper list and vector patterns nested to any depth, an ellipsis only in final position after a
+    sub-pattern without ellipsis. [M lits p d s s']: pattern [p] matches form [d], extending table [s] to [s']. *)
+Theorem C04_matcher_yes_is_specified : forall lits fuel p d s s', wfp lits p ->
+  match_datum fuel lits p d s = Ok (true, s') -> M lits p d s s'.
+Proof. exact matcher_says_yes_iff_specified. Qed.
+
+Theorem C04_matcher_no_means_no_specified_match : forall lits fuel p d s s', wfp lits p ->
+  match_datum fuel lits p d s = Ok (false, s') -> forall s2, ~ M lits p d s s2.
+Proof. exact matcher_says_no_iff_nothing_specified. Qed.
+
+Theorem C04_specified_match_is_found : forall lits fuel p d s b s' s2, wfp lits p ->
+  match_datum fuel lits p d s = Ok (b, s') -> M lits p d s s2 -> b = true /\ s' = s2.
+Proof. exact specified_match_is_what_the_matcher_finds. Qed.
+
+(** not vacuous: (_ a b ...) is in the class and matches (m 1 2 3) with a = 1, b = 2 3 *)
+Theorem C04_example_pattern_supported : wfp [] ex_pattern.
+Proof. exact ex_pattern_supported. Qed.
+Theorem C04_example_match :
+  M [] ex_pattern ex_use [] [(ex_a, (ex_int 1%Z, [])); (ex_b, (ex_int 2%Z, [ex_int 3%Z]))].
+Proof. exact ex_pattern_matches. Qed.
+
+(** a successful match binds exactly the variables of the pattern (any pattern, any fuel) *)
+Theorem C04_match_binds_the_pattern_variables : forall fuel lits p d s,
+  match_datum fuel lits p d [] = Ok (true, s) -> forall x, K s x <-> PV lits p x.
+Proof. exact match_binds_the_pattern_variables. Qed.
+
+(** ** template substitution against a structural specification (Proofs/TemplateSpec.v): [tinst s pick t] is [t]
+    with every bound variable replaced by [pick] of its binding *)
+Theorem C04_template_without_ellipsis : forall fuel t s ds, flatt t -> substitute fuel t s = Ok ds ->
+  exists d, ds = [d] /\ tinst s pick_first t = Some d.
+Proof. exact substitute_flat. Qed.
+
+Theorem C04_template_final_ellipsis : forall fuel pre t l s ds,
+  Forall (fun e => snd e = false /\ flatt (fst e)) pre -> flatt t ->
+  substitute fuel (TList (pre ++ [(t, true)]) l) s = Ok ds ->
+  exists items first more,
+    ds = [dlist (items ++ first :: more)] /\
+    tinst_items s pick_first pre = Some items /\
+    tinst s pick_first t = Some first /\
+    (forall k, k < length more -> tinst s (pick_further k) t = Some (nth k more (DNil None))) /\
+    tinst s (pick_further (length more)) t = None.
+Proof. exact substitute_final_ellipsis. Qed.
+
+(** ** both together (Proofs/ExpansionSpec.v): after `q ...` has matched the forms e1 :: rest, the template
+    `(pre ... t ...)` expands to the instances of pre, then one copy of [t] for e1 and one per further form,
+    in order, the copy for a form being [t] with the variables of [q] replaced by what they matched in
+    that form ([fr] is the table of matching [q] against that form alone) *)
+Theorem C04_ellipsis_template_expands_per_item : forall lits q e1 rest s s1 s2 pre t l fuel ds,
+  flatp q -> M lits q e1 s s1 -> RUN lits q rest s1 s2 ->
+  Forall (fun e => snd e = false /\ flatt (fst e)) pre -> flatt t ->
+  (exists x, tvar x t /\ PV lits q x) ->
+  (forall x, tvar x t -> K s2 x -> PV lits q x) ->
+  substitute fuel (TList (pre ++ [(t, true)]) l) s2 = Ok ds ->
+  exists items first more freshes,
+    ds = [dlist (items ++ first :: more)] /\
+    tinst_items s2 pick_first pre = Some items /\
+    tinst s2 pick_first t = Some first /\
+    Forall2 (fun e fr => M lits q e [] fr) rest freshes /\
+    Forall2 (fun fr d => tinst fr pick_first t = Some d) freshes more.
+Proof. exact ellipsis_template_expands_per_item. Qed.
